@@ -20,7 +20,7 @@ func siteR(kind, name, typ, pkg string) *jg.Site {
 }
 
 var c02ExprNames = []string{"implicit", "this-call", "field-imported", "field-project", "param", "local", "static", "chained",
-	"nested-arg", "new", "new-with-arg-call", "lambda", "this-field", "param-project"}
+	"nested-arg", "new", "new-with-arg-call", "lambda", "this-field", "param-project", "new-generic", "new-qualified", "new-then-call", "new-in-lambda", "new-as-argument", "local-of-declared-type-initialised-with-other-new"}
 
 // c02Expr returns (prefix statements needed before, expression fragments).
 func c02Expr(kind string, uniq string) (pre []jg.Stmt, e []jg.Frag) {
@@ -51,6 +51,21 @@ func c02Expr(kind string, uniq string) (pre []jg.Stmt, e []jg.Frag) {
 		e = []jg.Frag{jg.T("new "), jg.S(site("new", "Helper")), jg.T("()")}
 	case "new-with-arg-call":
 		e = []jg.Frag{jg.T("new "), jg.S(site("new", "Helper")), jg.T("(repo."), jg.S(siteR("call", "find", "Repo", "lib")), jg.T("())")}
+	case "local-of-declared-type-initialised-with-other-new":
+		// the receiver's DECLARED type counts, not the type that happens to be created
+		v := "sub" + uniq
+		pre = []jg.Stmt{jg.St(jg.T("Repo " + v + " = new "), jg.S(site("new", "SpecialRepo")), jg.T("();"))}
+		e = []jg.Frag{jg.T(v + "."), jg.S(siteR("call", "find", "Repo", "lib")), jg.T("()")}
+	case "new-generic":
+		e = []jg.Frag{jg.T("new "), jg.S(site("new", "Repo")), jg.T("<String>()")}
+	case "new-qualified":
+		e = []jg.Frag{jg.T("new other."), jg.S(site("new", "Tool")), jg.T("()")}
+	case "new-then-call":
+		e = []jg.Frag{jg.T("new "), jg.S(site("new", "Helper")), jg.T("()."), jg.S(site("call", "help")), jg.T("()")}
+	case "new-in-lambda":
+		e = []jg.Frag{jg.T("items."), jg.S(site("call", "forEach")), jg.T("(it -> new "), jg.S(site("new", "Helper")), jg.T("())")}
+	case "new-as-argument":
+		e = []jg.Frag{jg.S(siteR("call", "doIt2", "Svc", "app")), jg.T("(new "), jg.S(site("new", "Helper")), jg.T("())")}
 	case "lambda":
 		e = []jg.Frag{jg.T("items."), jg.S(site("call", "forEach")), jg.T("(it -> it."), jg.S(site("call", "run")), jg.T("())")}
 	case "this-field":
@@ -346,7 +361,7 @@ func init() {
 	engine.Register(&engine.Spec{
 		ID:    "C02",
 		Title: "Recorded call sites are exactly the invocations written in the source",
-		Rule: "X1 over a 3-file project (app.Svc under test, app.Helper, other.Tool): 1..3 methods (overload / constructor) x 1..3 statements each from 12 statement forms x 14 expression forms, " +
+		Rule: "X1 over a 3-file project (app.Svc under test, app.Helper, other.Tool): 1..3 methods (overload / constructor) x 1..3 statements each from 12 statement forms x 20 expression forms, " +
 			"name-reuse scenarios (parameter then local, parameter/local shadowing a field, same local name in sibling methods), import-suffix collision, 12 layouts; deviation-bounded. " +
 			"Every case has call sites (non-trivial). Distinct = distinct source text.",
 		Assumptions: []string{
